@@ -7,8 +7,7 @@ open ExoVerif ExoVerif.Ledger ExoVerif.Driver ExoVerif.KV
 
 def hexDigit (n : Nat) : Char := if n < 10 then Char.ofNat (48 + n) else Char.ofNat (87 + n)
 
-/-- hexutil.EncodeUint64: "0x" ++ lowercase hex without leading zeros ("0x0" for 0) -/
-def hexNat (n : Nat) : String := "0x" ++ String.ofList ((Nat.toDigits 16 n))
+-- `hexNat` (hexutil.EncodeUint64) is the model's: the NST adjustment orders store keys by it
 
 def recKeyStr (k : RecKey) : String := s!"{k.op}/{hexNat k.height}/{hexNat k.nonce}/{k.hash}"
 
@@ -80,6 +79,7 @@ def step (s : L) (w : List String) : L × String :=
       | _ => s) s
     let s' := nextBlock (endBlock s1); (s', "ok " ++ dump s')
   | ["ledger.slash", o, inf, p] => let s' := slashAssets s o (parseNat! inf) ⟨parseInt! p⟩; (s', "ok " ++ dump s')
+  | ["ledger.nstadjust", st, a, x] => result s (nstUpdate s st a (parseInt! x))
   | ["ledger.associate", st, o] => result s (associate s st o)
   | ["ledger.dissociate", st] => result s (dissociate s st)
   | _ => (s, "bad-op")
